@@ -11,6 +11,9 @@ E2 bounded enumeration on the real Material / Substance classes.
   substance  x and X over the atoms of 8 formulas (Norm.NUMBER), also after multiplying the substance by {2, 3, 0.5}.
   trace      a tiny positive proportion {8.7e-8, 1e-9, 1e-12} at every position next to proportions {1, 78.084}, all 20
              ordered pairs and the 6 orders of one triple, common scale {1, 1e-3}, both normalisation modes (dict form).
+  explicit   material components written in the explicit formula notation ('Na{23} + Cl', 'O{17} * 3', 'H * 2 + O',
+             'C + O * 2') as dictionary keys and through add(), at every position, both modes: component mass =
+             mass of the stand-alone Substance of the same text, x and X from the closed formulas.
   string     materials given as expression strings "p <A> p <B> [p <C>]": every tuple of proportion spellings from 17
              (decimals, integer, unsigned / signed / upper-case exponents of unequal size, two trace values, bare trailing dot) x both normalisation modes x
              both isotope modes; oracle = closed formulas for float(spelling) + the same material given as a dict.
@@ -258,6 +261,43 @@ def check_string(subs, spellings, norm, natural):
     return None
 
 
+# material components written in the documented EXPLICIT formula notation (blanks around + and *); as dictionary keys
+# and through add().  Inside an expression string '<...>' the material solver itself splits at ' + ' / ' * ' on the
+# unpatched tree, so that form is not demanded.
+EXPLICIT_KEYS = ["Na{23} + Cl", "O{17} * 3", "H * 2 + O", "C + O * 2"]
+
+
+def check_explicit(key, pos, norm, natural, via):
+    """the component must have the mass of the stand-alone Substance of the same text, and x, X follow from it"""
+    from scinumtools.materials import Material, Substance
+    case = dict(kind="explicit", key=key, pos=pos, norm=norm, natural=natural, via=via)
+    tags = ["explicit-notation", "via:" + via, "norm:" + norm, "pos=%d" % pos, "natural" if natural else "abundant"]
+    subs = ["NaCl", "Ar"]
+    subs.insert(pos, key)
+    props = [0.3, 1.5]
+    props.insert(pos, 0.2)
+
+    def run():
+        alone = Substance(key, natural=natural).data_composite(quantity=False)["sum"].mass
+        if via == "dict":
+            m = Material(dict(zip(subs, props)), natural=natural, norm_type=_norm(norm))
+        else:
+            m = Material(natural=natural, norm_type=_norm(norm))
+            for s_, p_ in zip(subs, props):
+                m.add(s_, p_)
+        return float(alone), m
+    o = outcome(run)
+    if o[0] == "err":
+        return failure("explicit", case, "constructed", list(o), tags, "raises:" + o[1])
+    alone, m = o[1]
+    got = _read(m, subs)
+    if got[0] == "err":
+        return failure("explicit", case, "tables", list(got), tags, "raises:" + got[1])
+    if not R.close(got[0][pos], alone, 1e-12):
+        return failure("explicit", case, alone, got[0][pos], tags, "component-mass-differs-from-substance")
+    return _compare("explicit", case, tags, subs, props, norm, got)
+
+
 def _make(cls, arg, mode, natural):
     from scinumtools.materials import Substance, Material
     if isinstance(arg, dict):
@@ -419,6 +459,7 @@ def plan(tier, seed):
             shards.append(("material", t, nat, win))
     for t in list(itertools.permutations(SUBSTANCES, 2)) + list(itertools.permutations(TRACE_TRIPLE, 3)):
         shards.append(("trace", t))
+    shards.append(("explicit",))
     wins = None if tier == "thorough" else seed % NWIN_STR
     for k in (2, 3):
         for first in SPELLINGS:
@@ -462,6 +503,21 @@ def _run_shard(desc):
                         sh.fail(bad)
                     _restore()
         sh.sample(dict(kind="substance", formula="Ca(OH)2", mult=0.5))
+        return sh
+    if desc[0] == "explicit":
+        for key in EXPLICIT_KEYS:
+            for pos in (0, 1, 2):
+                for norm in ("number", "mass"):
+                    for nat in (False, True):
+                        for via in ("dict", "add"):
+                            bad = check_explicit(key, pos, norm, nat, via)
+                            sh.evaluations += 1
+                            sh.nontrivial += 1
+                            sh.count("explicit")
+                            if bad:
+                                sh.fail(bad)
+                            _restore()
+        sh.sample(dict(kind="explicit", key="H * 2 + O", pos=1, norm="mass", via="add"))
         return sh
     if desc[0] == "trace":
         subs = desc[1]
@@ -548,6 +604,8 @@ def replay(rec):
     try:
         if c["kind"] == "substance":
             return check_substance(c["formula"], c["mult"], c["natural"])
+        if c["kind"] == "explicit":
+            return check_explicit(c["key"], c["pos"], c["norm"], c["natural"], c["via"])
         if c["kind"] == "string":
             return check_string(c["subs"], c["spellings"], c["norm"], c["natural"])
         if c["kind"] == "history":
@@ -564,7 +622,7 @@ def finish(total, tier, seed):
                 "substance"):
         if not h.get(key):
             raise HarnessError("vacuous run: no case under " + key)
-    for key in ("string:k=2", "string:k=3", "string:signed-exponent", "trace:k=2", "trace:k=3"):
+    for key in ("string:k=2", "string:k=3", "string:signed-exponent", "trace:k=2", "trace:k=3", "explicit"):
         if not h.get(key):
             raise HarnessError("vacuous run: no case under " + key)
     for key in ("add-existing", "add-new", "plus-shared", "plus-shared-last", "plus-disjoint", "mul",
@@ -583,6 +641,8 @@ def finish(total, tier, seed):
         full_space=full, duality_cases=h.get("duality", 0),
         states=len(hstates), transitions=total.transitions, traces_validated_against_impl=total.traces,
         max_depth=total.max_depth,
+        explicit_bounds=dict(keys=EXPLICIT_KEYS, position=[0, 1, 2], via=["dict", "add"], modes=["number", "mass"],
+                             isotope_modes=["natural", "abundant"]),
         trace_bounds=dict(values=TRACE_VALUES, others=TRACE_OTHERS, scales=TRACE_SCALES, position="every",
                           tuples="20 ordered pairs + 6 orders of %s" % TRACE_TRIPLE, modes=["number", "mass"]),
         string_bounds=dict(spellings=SPELLINGS, substances=STR_SUBSTANCES, modes=["number", "mass"],
@@ -609,7 +669,9 @@ MANIFEST = dict(
          "{1, 78.084} at scales {1, 1e-3}. x and X are compared with the closed formulas computed from the UNscaled proportions "
          "(rel 1e-10), sums with 100 (abs 1e-9); every unscaled number-fraction material is rebuilt from its reported "
          "mass fractions and must report the same x and X (rel 1e-9); the same formulas are checked over the atoms of "
-         "8 substances and their multiples. Materials written as expression strings: all 17^2 (quick: + one window of "
+         "8 substances and their multiples. Components written in the explicit formula notation ('H * 2 + O', ...) "
+         "as dict keys and through add() must have the mass of the stand-alone substance. Materials written as "
+         "expression strings: all 17^2 (quick: + one window of "
          "20 of the 17^3) tuples of proportion spellings incl. signed, unsigned and upper-case exponents and trace "
          "values x modes, vs the "
          "closed formulas and the dictionary twin. Live composites: every history of <= 2 (thorough 3) operations "
